@@ -450,7 +450,7 @@ func seqPrelude(sort, elem string, quant bool) string {
 	p("(assert (forall ((s %s)) (! (= (%s_app %s_empty s) s) :pattern ((%s_app %s_empty s)))))", S, S, S, S, S)
 	p("(assert (forall ((a %s) (b %s) (c %s)) (! (= (%s_app a (%s_app b c)) (%s_app (%s_app a b) c)) :pattern ((%s_app a (%s_app b c))))))", S, S, S, S, S, S, S, S, S)
 	p("(assert (forall ((s %s) (a Int) (b Int) (c Int)) (! (=> (and (<= 0 a) (<= a b) (<= b c) (<= c (%s_len s))) (= (%s_app (%s_sl s a b) (%s_sl s b c)) (%s_sl s a c))) :pattern ((%s_app (%s_sl s a b) (%s_sl s b c))))))", S, S, S, S, S, S, S, S, S)
-	p("(assert (forall ((s %s) (a Int)) (! (=> (and (<= 0 a) (<= a (%s_len s))) (= (%s_app (%s_sl s 0 a) (%s_sl s a (%s_len s))) s)) :pattern ((%s_sl s a (%s_len s))))))", S, S, S, S, S, S, S, S)
+	p("(assert (forall ((s %s) (a Int)) (! (=> (and (<= 0 a) (<= a (%s_len s))) (= (%s_app (%s_sl s 0 a) (%s_sl s a (%s_len s))) s)) :pattern ((%s_sl s a (%s_len s))) :qid needs.%s_app)))", S, S, S, S, S, S, S, S, S)
 	p("(assert (forall ((s %s) (i Int) (j Int)) (! (=> (and (= j (+ i 1)) (<= 0 i) (< i (%s_len s))) (= (%s_sl s 0 j) (%s_build (%s_sl s 0 i) (%s_idx s i)))) :pattern ((%s_sl s 0 i) (%s_sl s 0 j)))))", S, S, S, S, S, S, S, S)
 	p("(assert (forall ((s %s) (a Int)) (! (= (%s_sl s a a) %s_empty) :pattern ((%s_sl s a a)))))", S, S, S, S)
 	p("(assert (forall ((s %s)) (! (= (%s_sl s 0 (%s_len s)) s) :pattern ((%s_sl s 0 (%s_len s))))))", S, S, S, S, S)
@@ -460,7 +460,7 @@ func seqPrelude(sort, elem string, quant bool) string {
 	// slice-of-slice is applied syntactically (sSl); as a quantified axiom it caused matching loops
 	p("(assert (forall ((s %s) (v %s)) (! (= (%s_len (%s_build s v)) (+ (%s_len s) 1)) :pattern ((%s_build s v)))))", S, elem, S, S, S, S)
 	p("(assert (forall ((s %s) (v %s) (i Int)) (! (= (%s_idx (%s_build s v) i) (ite (= i (%s_len s)) v (%s_idx s i))) :pattern ((%s_idx (%s_build s v) i)))))", S, elem, S, S, S, S, S, S)
-	p("(assert (forall ((s %s) (v %s)) (! (= (%s_build s v) (%s_app s (%s_build %s_empty v))) :pattern ((%s_build s v)))))", S, elem, S, S, S, S, S)
+	p("(assert (forall ((s %s) (v %s)) (! (= (%s_build s v) (%s_app s (%s_build %s_empty v))) :pattern ((%s_build s v)) :qid needs.%s_app)))", S, elem, S, S, S, S, S, S)
 	p("(assert (forall ((s %s) (v %s)) (! (= (%s_sl (%s_build s v) 0 (%s_len s)) s) :pattern ((%s_build s v)))))", S, elem, S, S, S, S)
 	p("(assert (forall ((s %s) (i Int) (v %s)) (! (= (%s_len (%s_upd s i v)) (%s_len s)) :pattern ((%s_upd s i v)))))", S, elem, S, S, S, S)
 	p("(assert (forall ((s %s) (i Int) (v %s) (j Int)) (! (= (%s_idx (%s_upd s i v) j) (ite (and (= i j) (<= 0 i) (< i (%s_len s))) v (%s_idx s j))) :pattern ((%s_idx (%s_upd s i v) j)))))", S, elem, S, S, S, S, S, S)
